@@ -479,6 +479,11 @@ class Parser:
                 items.append(self.parse_expr())
             self.eat("]")
             return ("veclist", items)
+        if name == "single_op_checked":
+            self.eat("(")
+            e = self.parse_expr()
+            self.eat(")")
+            return ("checked", e)
         # any other macro: skip its delimited argument
         open_ = self.eat()[1]
         close = {"(": ")", "[": "]", "{": "}"}.get(open_)
